@@ -375,7 +375,7 @@ func (u *Universe) genWriterOp(rng *rand.Rand, m *Model, repo string, o GenOpts)
 		return &Op{Kind: "W.Cancel", H: h}
 	case k < 15:
 		if len(m.Handles) < 12 {
-			return &Op{Kind: "PushBlobChunkedResume", Repo: repo, IDLit: fmt.Sprintf("unknown-id-%d", rng.IntN(3)), Offset: pick(rng, []int64{-1, 0, 2}), H: -1}
+			return &Op{Kind: "PushBlobChunkedResume", Repo: repo, IDLit: pick(rng, []string{"unknown-id-0", "unknown-id-1", "unknown-id-2", EmptyID}), Offset: pick(rng, []int64{-1, 0, 2}), H: -1}
 		}
 		fallthrough
 	default:
